@@ -1,1 +1,554 @@
-/-! C01 — property theorems (none yet). -/
+import Req.Lemmas.Pct
+import Req.Lemmas.Query
+import Req.Lemmas.H1Fidelity
+import Req.Lemmas.Trim
+import Req.Client.Url
+import Req.Client.Merge
+/-!
+C01 — request fidelity: property theorems about the models of the request-building pipeline.
+
+* `escape_roundtrip`, `pathEscape_no_structure`, `queryEscape_no_structure`: Go's percent-encoding
+  is injective (decodable) and its output contains no byte that has a structural meaning in a
+  path, a query, a request line or a header block.
+* `path_param_segments`: substituting path parameters (request-level and client-level maps, any
+  iteration order, any template, any values) never adds a `/`, `?`, `#`, space, CR, LF, NUL …:
+  a value cannot add a path segment, a query, a fragment or a line.
+* `query_merge_spec`: an origin parsing the final raw query reads the pairs of the caller's raw
+  query followed by exactly the merged parameter maps (request keys override client keys), sorted
+  by key — nothing dropped, duplicated or altered.
+-/
+namespace Req.Props.C01
+open Req.Proto Req.Pct Req.Url Req.BStr Req.Query
+
+/-! ### percent-encoding -/
+
+/-- **escape_roundtrip**: for every mode Go decodes its own escapes back to the input (host and
+zone excluded: there Go itself rejects `%XX` of an ASCII byte). -/
+theorem escape_roundtrip (m : Mode) (hm1 : m ≠ .host) (hm2 : m ≠ .zone) (s : Bytes) :
+    unescape m (escape m s) = some s :=
+  unescape_escape m hm1 hm2 s
+
+example : unescape .pathSegment (pathEscape [97, 47, 98, 32, 195, 188, 13, 10]) =
+    some [97, 47, 98, 32, 195, 188, 13, 10] := by decide
+
+/-- escaping is injective: two values can never be confused on the wire. -/
+theorem escape_injective (m : Mode) (hm1 : m ≠ .host) (hm2 : m ≠ .zone) (s t : Bytes)
+    (h : escape m s = escape m t) : s = t := by
+  have hs := escape_roundtrip m hm1 hm2 s
+  have ht := escape_roundtrip m hm1 hm2 t
+  rw [h, ht] at hs
+  exact (Option.some.inj hs).symm
+
+/-- bytes with a structural meaning in a URL path, a request line or a header block:
+`/ ? # { } ; ,`, space, control bytes (CR, LF, NUL, …), DEL, and everything non-ASCII. -/
+def pathStructural (b : UInt8) : Bool :=
+  b == 47 || b == 63 || b == 35 || b == 123 || b == 125 || b == 59 || b == 44 || b ≤ 32 || b ≥ 127
+
+def pathSafe (b : UInt8) : Bool :=
+  b == 37 || isUpperHexDigit b || !shouldEscape b .pathSegment
+
+set_option maxRecDepth 100000 in
+theorem pathSafe_not_structural (b : UInt8) : (!pathSafe b || !pathStructural b) = true :=
+  Req.U8.all (fun b => !pathSafe b || !pathStructural b) (by decide) b
+
+/-- **pathEscape_no_structure**: `url.PathEscape` never outputs `/ ? # { } ; ,`, a space, a
+control byte (CR, LF, NUL …), DEL or a non-ASCII byte. -/
+theorem pathEscape_no_structure (s : Bytes) : ∀ b ∈ pathEscape s, pathStructural b = false := by
+  intro b hb
+  have hsafe : pathSafe b = true := by
+    unfold pathEscape at hb
+    unfold pathSafe
+    rcases mem_escape hb with h | h | h | h
+    · simp [h]
+    · simp [h]
+    · exact absurd h.2 (by decide)
+    · simp [h.2]
+  have h2 := pathSafe_not_structural b
+  rw [hsafe] at h2
+  simpa using h2
+
+example : pathEscape [46, 46, 47, 13, 10, 123, 105, 100, 125] =
+    [46, 46, 37, 50, 70, 37, 48, 68, 37, 48, 65, 37, 55, 66, 105, 100, 37, 55, 68] := by decide
+
+/-- **queryEscape_no_structure**: `url.QueryEscape` never outputs `& = # ? /`, a space, a control
+byte, DEL or a non-ASCII byte (`+` stands for a space). -/
+theorem queryEscape_no_structure (s : Bytes) : ∀ b ∈ queryEscape s, queryStructural b = false :=
+  queryEscape_not_structural s
+
+example : queryEscape [97, 38, 98, 61, 99, 32, 35] = [97, 37, 50, 54, 98, 37, 51, 68, 99, 43, 37, 50, 51] := by
+  decide
+
+/-! ### path parameters -/
+
+theorem count_append (c : UInt8) (a b : Bytes) : count c (a ++ b) = count c a + count c b := by
+  simp [count, List.countP_append]
+
+theorem count_cons (c x : UInt8) (a : Bytes) :
+    count c (x :: a) = count c a + (if x == c then 1 else 0) := by
+  simp [count, List.countP_cons]
+
+theorem count_eq_zero_of_not_mem (c : UInt8) (s : Bytes) (h : ∀ b ∈ s, b ≠ c) : count c s = 0 := by
+  unfold count
+  rw [List.countP_eq_zero]
+  intro b hb
+  simpa using h b hb
+
+theorem replaceAux_count (c : UInt8) (old new : Bytes) (hnew : count c new = 0) :
+    ∀ (s : Bytes) (skip : Nat), count c (replaceAux old new skip s) ≤ count c s := by
+  intro s
+  induction s with
+  | nil => intro skip; cases skip <;> simp [replaceAux]
+  | cons x t ih =>
+    intro skip
+    cases skip with
+    | succ k =>
+      simp only [replaceAux]
+      have := ih k
+      rw [count_cons]
+      omega
+    | zero =>
+      simp only [replaceAux]
+      split
+      · rw [count_append, hnew, count_cons]
+        have := ih (old.length - 1)
+        omega
+      · rw [count_cons, count_cons]
+        have := ih 0
+        omega
+
+theorem substOne_count (c : UInt8) (hc : pathStructural c = true) (tmpl : Bytes)
+    (pv : Bytes × Bytes) : count c (substOne tmpl pv) ≤ count c tmpl := by
+  unfold substOne replaceAll
+  split
+  · exact Nat.le_refl _
+  · apply replaceAux_count
+    apply count_eq_zero_of_not_mem
+    intro b hb heq
+    have := pathEscape_no_structure pv.2 b hb
+    rw [heq, hc] at this
+    exact Bool.noConfusion this
+
+theorem foldl_substOne_count (c : UInt8) (hc : pathStructural c = true) (ps : PMap) :
+    ∀ tmpl : Bytes, count c (ps.foldl substOne tmpl) ≤ count c tmpl := by
+  induction ps with
+  | nil => intro tmpl; exact Nat.le_refl _
+  | cons p ps ih =>
+    intro tmpl
+    simp only [List.foldl_cons]
+    exact Nat.le_trans (ih _) (substOne_count c hc tmpl p)
+
+/-- **path_param_segments**: for EVERY template, every request-level and client-level parameter
+map in any iteration order and every value, substitution never increases the number of `/`
+(path segments), `?` (queries), `#` (fragments), spaces, CR, LF, NUL or any other structural
+byte: a path-parameter value cannot add a segment, a query, a fragment, a header line or a second
+request. (It can lower a count only when a KEY — part of the template — contains such a byte.) -/
+theorem path_param_segments (tmpl : Bytes) (rp cp : PMap) (c : UInt8)
+    (hc : pathStructural c = true) : count c (substParams tmpl rp cp) ≤ count c tmpl := by
+  unfold substParams
+  exact Nat.le_trans (foldl_substOne_count c hc cp _) (foldl_substOne_count c hc rp tmpl)
+
+/-- number of path segments = number of `/` + 1 -/
+theorem path_param_no_new_segment (tmpl : Bytes) (rp cp : PMap) :
+    count 47 (substParams tmpl rp cp) ≤ count 47 tmpl :=
+  path_param_segments tmpl rp cp 47 (by decide)
+
+/-- non-vacuity: `/u/{id}/x` with id = `a/b?c#d` + CR LF keeps its three slashes. -/
+example : substParams [47, 117, 47, 123, 105, 100, 125, 47, 120]
+    [([105, 100], [97, 47, 98, 63, 99, 35, 100, 13, 10])] [] =
+    [47, 117, 47, 97, 37, 50, 70, 98, 37, 51, 70, 99, 37, 50, 51, 100, 37, 48, 68, 37, 48, 65, 47, 120] := by
+  decide
+
+/-! ### query merge -/
+
+/-- the pairs the caller described through the client-level and request-level maps: request keys
+override client keys, keys sorted bytewise, values in the order given. -/
+def specPairs (cq rq : QMap) : List (Bytes × Bytes) :=
+  (isortBy (fun a b => le a.1 b.1) (mergedQuery cq rq)).flatMap fun kv => kv.2.map fun v => (kv.1, v)
+
+theorem encodeValues_eq (m : QMap) :
+    encodeValues m = join [38]
+      (((isortBy (fun a b => le a.1 b.1) m).flatMap fun kv => kv.2.map fun v => (kv.1, v)).map
+        fun p => encodePair p.1 p.2) := by
+  unfold encodeValues
+  congr 1
+  simp [List.map_flatMap, List.map_map, Function.comp_def]
+
+/-- **query_merge_spec**: an origin that parses the final raw query reads the pairs of the raw
+query of the URL, followed by exactly `specPairs` — every key/value of the merged maps once, each
+decoded to the caller's bytes, request-level keys replacing client-level keys. (`none` on both
+sides when the caller's own raw query has a malformed escape. Odd corner of the code, kept: a raw
+query made of white space only counts as absent — `util.IsStringEmpty` — and is replaced.) -/
+theorem query_merge_spec (raw : Bytes) (cq rq : QMap) :
+    parseQuery (mergeRawQuery raw cq rq) =
+      if !(mergedQuery cq rq).isEmpty && allSpace raw then some (specPairs cq rq)
+      else (parseQuery raw).map (· ++ specPairs cq rq) := by
+  unfold mergeRawQuery
+  simp only
+  split
+  next hq =>
+    have : specPairs cq rq = [] := by
+      unfold specPairs
+      have : mergedQuery cq rq = [] := by simpa using hq
+      rw [this]; simp [isortBy]
+    rw [this]
+    simp only [hq, Bool.not_true, Bool.false_and, Bool.false_eq_true, if_false]
+    cases parseQuery raw <;> simp
+  next hq =>
+    have hq' : (mergedQuery cq rq).isEmpty = false := by simpa using hq
+    split
+    next hraw =>
+      simp only [hq', hraw, Bool.not_false, Bool.and_self, if_true]
+      rw [encodeValues_eq, parseQuery_join]
+      rfl
+    next hraw =>
+      have hraw' : allSpace raw = false := by simpa using hraw
+      simp only [hq', hraw', Bool.not_false, Bool.and_false, Bool.false_eq_true, if_false]
+      rw [List.append_assoc, List.singleton_append, parseQuery_append, encodeValues_eq,
+        parseQuery_join]
+      cases parseQuery raw <;> rfl
+
+/-- non-vacuity: raw `x=1`, client {a:[1], b:[2]}, request {a:[z, ' &']} . -/
+example : mergeRawQuery [120, 61, 49] [([97], [[49]]), ([98], [[50]])] [([97], [[122], [32, 38]])] =
+    [120, 61, 49, 38, 97, 61, 122, 38, 97, 61, 43, 37, 50, 54, 38, 98, 61, 50] := by decide
+
+/-! ### client defaults never override request values -/
+
+section MergeSec
+open Req.Merge Req.H1 Req.HeaderSort
+
+/-- a request-level header with at least one value survives the merge untouched. -/
+theorem merge_request_wins (ch : Option Hdr) (rh : Hdr) (kv : KV) (hkv : kv ∈ rh)
+    (hne : kv.values.isEmpty = false) : kv ∈ mergeHeaders ch rh := by
+  unfold mergeHeaders
+  cases ch with
+  | none => exact hkv
+  | some ch =>
+    apply List.mem_append.mpr
+    left
+    apply List.mem_map.mpr
+    exact ⟨kv, hkv, by simp [hne]⟩
+
+/-- a client-level header is added when the request has no entry under exactly that key. -/
+theorem merge_client_fills (ch rh : Hdr) (kv : KV) (hkv : kv ∈ ch)
+    (habs : ∀ x ∈ rh, (x.key == kv.key) = false) : kv ∈ mergeHeaders (some ch) rh := by
+  unfold mergeHeaders
+  apply List.mem_append.mpr
+  right
+  apply List.mem_filter.mpr
+  refine ⟨hkv, ?_⟩
+  simp only [Bool.not_eq_true', List.any_eq_false]
+  intro x hx
+  simpa using habs x hx
+
+/-- nothing else appears: every merged entry is a request entry, a client entry, or a request key
+that had no value filled with the client's values for that key. -/
+theorem merge_nothing_else (ch rh : Hdr) (kv : KV) (h : kv ∈ mergeHeaders (some ch) rh) :
+    kv ∈ rh ∨ kv ∈ ch ∨ ∃ r ∈ rh, r.values.isEmpty = true ∧ kv.key = r.key ∧ hdrGet? ch r.key = some kv.values := by
+  unfold mergeHeaders at h
+  rcases List.mem_append.mp h with h | h
+  · obtain ⟨r, hr, rfl⟩ := List.mem_map.mp h
+    split
+    next he =>
+      cases hg : hdrGet? ch r.key with
+      | none => exact Or.inl hr
+      | some vs => exact Or.inr (Or.inr ⟨r, hr, he, rfl, hg⟩)
+    next => exact Or.inl hr
+  · exact Or.inr (Or.inl (List.mem_filter.mp h).1)
+
+end MergeSec
+
+/-! ### HTTP/1.1 fidelity -/
+
+section H1
+open Req.H1 Req.H1.Origin Req.Validate Req.HeaderSort
+
+/-- facts about the framing triple `newTransferWriter` computes. -/
+theorem framing_inv (r : WReq) (f : Framing) (h : framing r = .ok f) :
+    (f.sendBody = false → f.chunked = false ∧ f.cl = 0) ∧ (f.chunked = true → f.cl = -1) ∧
+    (f.sendBody = true → f.chunked = false → 0 ≤ f.cl → 0 < f.cl) := by
+  unfold framing at h
+  by_cases h1 : (r.contentLength != 0 && !r.hasBody) = true
+  · simp [h1] at h
+  · simp only [h1, Bool.false_eq_true, if_false] at h
+    generalize hc : (if (!r.hasBody) = true then (0:Int) else if (r.contentLength != 0) = true then r.contentLength else -1) = cl0 at h
+    by_cases h2 : cl0 < 0
+    · simp only [h2, if_true] at h
+      by_cases h3 : (methodOrGet r.method == sCONNECT) = true
+      · simp only [h3, if_true, Except.ok.injEq] at h
+        subst h
+        refine ⟨by simp, by simp, ?_⟩
+        intro _ _ h0; simp only at h0; omega
+      · simp only [h3, Bool.false_eq_true, if_false] at h
+        by_cases h4 : methodUsuallyLacksBody (methodOrGet r.method) = true
+        · simp only [h4, if_true] at h
+          by_cases h5 : r.body.isEmpty = true
+          · simp only [h5, if_true, Except.ok.injEq] at h; subst h; simp
+          · simp only [h5, Bool.false_eq_true, if_false, Except.ok.injEq] at h; subst h; simp
+        · simp only [h4, Bool.false_eq_true, if_false, Except.ok.injEq] at h; subst h; simp
+    · simp only [h2, if_false, Except.ok.injEq] at h
+      subst h
+      simp only
+      refine ⟨?_, by simp, ?_⟩
+      · intro hb
+        simp [hb] at hc
+        exact ⟨trivial, hc.symm⟩
+      · intro hb _ _
+        simp [hb] at hc
+        split at hc <;> omega
+
+/-- what an origin observes of a request, as determined by the request itself: the method, the
+request target, every header line in wire order (value without surrounding white space) and the
+body bytes. -/
+def view (r : WReq) (host : Bytes) (f : Framing) : View :=
+  { method := methodOrGet r.method, target := requestTarget r host,
+    fields := (linesOf (h1Fields r host f)).map trimmed,
+    body := if f.sendBody then r.body else [] }
+
+theorem methodOrGet_ne_nil (m : Bytes) : methodOrGet m ≠ [] := by
+  unfold methodOrGet
+  split
+  · decide
+  next h => simpa using h
+
+/-- **h1_fidelity**: for every request whose unvalidated parts are sane (`Valid`), the independent
+origin reads from `serializeH1 r ++ rest` EXACTLY ONE request — the method, the target, every
+header line the writer emitted with its exact value (white space trimmed as HTTP defines), the
+exact body bytes, for Content-Length framing, chunked framing (any read split) and no body — and
+leaves `rest` untouched, whatever `rest` is: nothing the caller supplied can end the header
+block early, add a line or start a second request. -/
+theorem h1_fidelity (r : WReq) (wire host : Bytes) (f : Framing)
+    (hh : wireHost r = .ok host) (hf : framing r = .ok f) (hs : serializeH1 r = .ok wire)
+    (hv : Valid r host f) (rest : Bytes) :
+    parseRequestH1 (wire ++ rest) = some (view r host f, rest) := by
+  -- shape of the serialisation
+  unfold serializeH1 at hs
+  simp only [hh, hf, bind, Except.bind] at hs
+  split at hs
+  · simp [throw, throwThe, MonadExceptOf.throw] at hs
+  cases hb : bodyBytes r f with
+  | error e => simp [hb] at hs
+  | ok bw =>
+    simp only [hb, pure, Except.pure, Except.ok.injEq] at hs
+    subst hs
+    have hline : ∀ b ∈ methodOrGet r.method ++ [32] ++ requestTarget r host ++ [32] ++ sHTTP11, b ≠ 13 := by
+      intro b hb'
+      simp only [List.mem_append, List.mem_singleton] at hb'
+      rcases hb' with (((hb' | hb') | hb') | hb') | hb'
+      · exact (hv.method_ok b hb').2
+      · rw [hb']; decide
+      · exact (hv.target_ok.2 b hb').2
+      · rw [hb']; decide
+      · revert b; decide
+    have e : requestLine r (requestTarget r host) ++ renderFields (h1Fields r host f) ++ crlf ++ bw ++ rest =
+        (methodOrGet r.method ++ [32] ++ requestTarget r host ++ [32] ++ sHTTP11) ++ 13 :: 10 ::
+          (renderLines (linesOf (h1Fields r host f)) ++ crlf ++ (bw ++ rest)) := by
+      simp [requestLine, renderFields_eq, crlf, List.append_assoc]
+    unfold parseRequestH1
+    rw [e, readLine_append _ _ [] hline]
+    simp only [List.reverse_nil, List.nil_append]
+    rw [parseRequestLine_render _ _ (methodOrGet_ne_nil _) hv.target_ok.1
+      (fun b hb' => (hv.method_ok b hb').1) (fun b hb' => (hv.target_ok.2 b hb').1)]
+    simp only
+    rw [parseHeaders_render _ _ [] (h1Fields_lineok r host f (wireHost_no_cr r host hh) hv.ua_ok)]
+    simp only [List.reverse_nil, List.nil_append]
+    rw [framingOf_h1Fields r host f hv]
+    obtain ⟨i1, i2, i3⟩ := framing_inv r f hf
+    -- body
+    unfold bodyBytes at hb
+    by_cases hsb : f.sendBody = true
+    · simp only [hsb, Bool.not_true, Bool.false_eq_true, if_false] at hb
+      by_cases hch : f.chunked = true
+      · simp only [hch, if_true, Except.ok.injEq] at hb
+        subst hb
+        have hcl := i2 hch
+        have hsc : shouldSendContentLength (methodOrGet r.method) f = false := by
+          unfold shouldSendContentLength; simp [hch]
+        simp only [hsc, Bool.false_eq_true, if_false, hch, if_true]
+        rw [decodeBody_chunked]
+        simp [view, hsb]
+      · have hch' : f.chunked = false := by simpa using hch
+        simp only [hch', Bool.false_eq_true, if_false] at hb
+        have hge : 0 ≤ f.cl := by
+          rcases hv.framed hsb with h | h
+          · rw [hch'] at h; exact absurd h (by simp)
+          · exact h
+        have hne1 : (f.cl == -1) = false := by
+          simp only [beq_eq_false_iff_ne, ne_eq]; omega
+        simp only [hne1, Bool.false_eq_true, if_false] at hb
+        split at hb
+        · exact absurd hb (by simp)
+        next hlen =>
+          simp only [Except.ok.injEq] at hb
+          subst hb
+          have hlen' : f.cl = (r.body.length : Int) := by simpa using hlen
+          have hpos := i3 hsb hch' hge
+          have hsc : shouldSendContentLength (methodOrGet r.method) f = true := by
+            unfold shouldSendContentLength
+            simp [hch', hpos]
+          simp only [hsc, if_true]
+          have : f.cl.toNat = r.body.length := by omega
+          rw [this, decodeBody_length]
+          simp [view, hsb]
+    · have hsb' : f.sendBody = false := by simpa using hsb
+      simp only [hsb', Bool.not_false, if_true, Except.ok.injEq] at hb
+      subst hb
+      obtain ⟨hc0, hcl0⟩ := i1 hsb'
+      simp only [hc0, Bool.false_eq_true, if_false, List.nil_append]
+      by_cases hsc : shouldSendContentLength (methodOrGet r.method) f = true
+      · simp only [hsc, if_true, hcl0]
+        simp [decodeBody, view, hsb']
+      · have hsc' : shouldSendContentLength (methodOrGet r.method) f = false := by simpa using hsc
+        simp only [hsc', Bool.false_eq_true, if_false]
+        simp [decodeBody, view, hsb']
+
+/-- non-vacuity: a POST with a chunked body (reads 2+3), a header value with surrounding spaces,
+a pipelined tail. -/
+example :
+    let r : WReq := { method := [80, 79, 83, 84],
+                      url := { scheme := [104], host := [104], path := [47, 97] },
+                      header := [⟨[88, 45, 65], [[32, 118, 32]]⟩], hasBody := true,
+                      body := [1, 2, 3, 4, 5], reads := [2] }
+    (serializeH1 r).toOption.bind (fun w => parseRequestH1 (w ++ [71, 69, 84])) =
+      some (view r [104] ⟨true, true, -1⟩, [71, 69, 84]) := by decide
+
+/-- **no CR / LF injection through header values**: whatever bytes a caller (or the transport's
+extra headers) supplies as a header value, the value written to the wire contains neither CR nor
+LF — it cannot end the line it is on. -/
+theorem header_value_no_crlf (v : Bytes) : ∀ b ∈ sanitizeValue v, b ≠ 13 ∧ b ≠ 10 :=
+  sanitizeValue_no_crlf v
+
+/-- **smuggling corollary**: a `Valid` request followed by ANY bytes is read as that one request
+followed by exactly those bytes; in particular the serialisation itself (`rest = []`) is consumed
+entirely — it contains no second request. -/
+theorem h1_exactly_one_request (r : WReq) (wire host : Bytes) (f : Framing)
+    (hh : wireHost r = .ok host) (hf : framing r = .ok f) (hs : serializeH1 r = .ok wire)
+    (hv : Valid r host f) :
+    parseRequestH1 wire = some (view r host f, []) := by
+  have := h1_fidelity r wire host f hh hf hs hv []
+  simpa using this
+
+/-- **chunked body framing round trip** (any body, any sequence of read sizes, any tail). -/
+theorem body_framing_chunked (body : Bytes) (reads : List Nat) (rest : Bytes) :
+    decodeBody .chunked (chunkedBody body reads ++ rest) = some (body, rest) :=
+  decodeBody_chunked body reads rest
+
+/-- the chunks are exactly a split of the body: concatenated they give it back. -/
+theorem body_framing_total (body : Bytes) (reads : List Nat) :
+    (splitReads body reads).flatten = body ∧ ∀ p ∈ splitReads body reads, p ≠ [] :=
+  splitReads_spec reads body
+
+end H1
+
+/-! ### the three protocols agree -/
+
+section Cross
+open Req.H1 Req.H2 Req.H1.Origin Req.Validate Req.HeaderSort Req.Ascii Req.Props.C16
+
+/-- a caller header none of the three writers treats specially: valid field name, not in either
+exclusion table (connection-specific / framing / bookkeeping names), not User-Agent, not Cookie. -/
+def ordinaryKey (k : Bytes) : Bool :=
+  validHeaderFieldName k && !reqWriteExcludeHeader.contains k && !isExcluded k &&
+    !equalFold k sUserAgentL && !equalFold k sCookieL
+
+theorem mem_wireOf {kvs : List KV} {kv : KV} {v : Bytes} (h : kv ∈ kvs) (hv : v ∈ kv.values) :
+    (lower kv.key, v) ∈ wireOf kvs := by
+  unfold wireOf
+  exact List.mem_flatMap.mpr ⟨kv, h, List.mem_map.mpr ⟨v, hv, rfl⟩⟩
+
+/-- **cross_protocol (header values)**: for the same `http.Request`, every value of every ordinary
+caller header that passes `validateHeaders` is on the HTTP/1.1 wire (name in the caller's
+spelling) AND in the HTTP/2 / HTTP/3 field list (name lower-cased, value verbatim), and an origin
+that removes surrounding white space — as HTTP defines field values — reads the SAME value from
+both. -/
+theorem cross_protocol (fl : Flavor) (w : WReq) (q : FReq) (host1 : Bytes) (f : Framing)
+    (fs : List (Bytes × Bytes)) (hq : q.header = w.header) (hfs : fields fl q = .ok fs)
+    (kv : KV) (hkv : kv ∈ w.header) (hk : ordinaryKey kv.key = true)
+    (v : Bytes) (hv : v ∈ kv.values) (hval : validHeaderFieldValue v = true) :
+    (kv.key, sanitizeValue v) ∈ linesOf (h1Fields w host1 f) ∧ (lower kv.key, v) ∈ fs ∧
+      trimOWS (sanitizeValue v) = trimOWS v := by
+  unfold ordinaryKey at hk
+  simp only [Bool.and_eq_true, Bool.not_eq_true'] at hk
+  obtain ⟨⟨⟨⟨hname, hex1⟩, hex2⟩, hua⟩, hck⟩ := hk
+  refine ⟨h1_noncanonical_spelling w host1 f kv hkv hex1 hname v hv, ?_, ?_⟩
+  · obtain ⟨host, path, _, _, hperm⟩ := wire_set_h2 fl q fs hfs
+    apply hperm.mem_iff.mpr
+    apply List.mem_append.mpr
+    right
+    unfold baseRegular
+    have e : ∀ a b : List KV, wireOf (a ++ b) = wireOf a ++ wireOf b := by
+      intro a b; simp [wireOf]
+    rw [e, e, e]
+    simp only [List.mem_append]
+    left; left; left
+    rw [hq]
+    unfold headerGroups wireOf
+    apply List.mem_flatMap.mpr
+    cases fl with
+    | h2 =>
+      refine ⟨kv, ?_, List.mem_map.mpr ⟨v, hv, rfl⟩⟩
+      apply List.mem_flatMap.mpr
+      refine ⟨kv, hkv, ?_⟩
+      simp [hex2, hua, hck]
+    | h3 =>
+      refine ⟨⟨kv.key, [v]⟩, ?_, by simp⟩
+      apply List.mem_flatMap.mpr
+      refine ⟨kv, hkv, ?_⟩
+      simp only [hex2, hua, Bool.false_eq_true, if_false]
+      have : (Flavor.h3 == Flavor.h2) = false := by decide
+      simp only [this, Bool.false_and, Bool.false_eq_true, if_false]
+      simp only [beq_self_eq_true, if_true]
+      exact List.mem_map.mpr ⟨v, hv, rfl⟩
+  · rw [sanitizeValue_of_valid v hval, trimOWS_idem]
+
+/-- non-vacuity: `X-A` is ordinary, `Connection` / `content-length` / `User-Agent` are not; an
+HTTP/2 field list for a request carrying `X-A: " v "` exists. -/
+example : ordinaryKey [88, 45, 65] = true ∧ ordinaryKey sConnection = false ∧
+    ordinaryKey sContentLengthL = false ∧ ordinaryKey sUserAgent = false := by decide
+
+example :
+    let q : FReq := { method := [71, 69, 84],
+                      url := { scheme := [104], host := [104], path := [47] },
+                      header := [⟨[88, 45, 65], [[32, 118, 32]]⟩] }
+    (fields .h2 q).toOption.map (·.length) = some 6 := by decide
+
+theorem lower_pseudo : lower sPath = sPath ∧ lower sMethod = sMethod ∧ lower sAuthority = sAuthority := by
+  decide
+
+/-- **cross_protocol (request line)**: for the same `http.Request` (no proxy, not CONNECT, target
+in origin form) the `:method` / `:path` pseudo fields of HTTP/2 and HTTP/3 carry exactly the
+method and the request target of the HTTP/1.1 request line. (HTTP/3 sends the method as given; it
+only differs from the other two for the empty method, which they read as GET.) -/
+theorem cross_protocol_request_line (fl : Flavor) (w : WReq) (q : FReq) (host1 : Bytes)
+    (fs : List (Bytes × Bytes)) (hm : q.method = w.method) (hu : q.url = w.url)
+    (hnc : (w.method == sCONNECT) = false) (hnp : w.usingProxy = false)
+    (hvp : validPseudoPath (requestURI w.url) = true) (hfs : fields fl q = .ok fs) :
+    (sPath, requestTarget w host1) ∈ fs ∧
+      (sMethod, if fl = .h2 then methodOrGet w.method else w.method) ∈ fs := by
+  obtain ⟨host, path, _, hpath, hperm⟩ := wire_set_h2 fl q fs hfs
+  have hp : path = requestURI w.url := by
+    unfold fieldPath at hpath
+    simp only [hm, hnc, Bool.false_eq_true, if_false, hu, hvp, if_true, Except.ok.injEq] at hpath
+    exact hpath.symm
+  have ht : requestTarget w host1 = requestURI w.url := by
+    unfold requestTarget
+    simp [hnp, hnc]
+  obtain ⟨l1, l2, _⟩ := lower_pseudo
+  constructor
+  · apply hperm.mem_iff.mpr
+    apply List.mem_append.mpr
+    left
+    rw [ht, ← hp, ← l1]
+    apply mem_wireOf (kv := ⟨sPath, [path]⟩) _ (by simp)
+    unfold basePseudo
+    simp [hm, hnc]
+  · apply hperm.mem_iff.mpr
+    apply List.mem_append.mpr
+    left
+    rw [← l2]
+    apply mem_wireOf (kv := ⟨sMethod, [if fl = .h2 then methodOrGet w.method else w.method]⟩) _ (by simp)
+    unfold basePseudo
+    cases fl <;> simp [hm]
+
+end Cross
+
+end Req.Props.C01
